@@ -216,17 +216,19 @@ def tree(rc):
         G = dotted(c.args[0]) if c.args else None
         neg = None
         sepw = pairs = False
-        for lp in [n for n in walk_no_nested(j.node) if isinstance(n, ast.For)]:
-            for sign, t in ((-1, "for _e, _w in zip(_E, _W):\n    _G.add_edge(*_e, weight=-_w)"), (1, "for _e, _w in zip(_E, _W):\n    _G.add_edge(*_e, weight=_w)")):
+        from ..util import resolved_fn
+        jr = resolved_fn(j)
+        for lp in [n for n in walk_no_nested(jr) if isinstance(n, ast.For)]:
+            for sign, t in ((-1, "for _e, _w in zip(__E, __W):\n    _G.add_edge(*_e, weight=-_w)"), (1, "for _e, _w in zip(__E, __W):\n    _G.add_edge(*_e, weight=_w)")):
                 bl = tm.is_(lp, t, {"_G": G} if G else {})
                 if bl is None:
                     continue
                 neg = sign == -1
-                for wt in ("_W = list(map(lambda _x: len(set(_x[0]).intersection(set(_x[1]))), _E))", "_W = list(map(lambda _x: len(set(_x[0]) & set(_x[1])), _E))",
-                           "_W = [len(set(_x[0]).intersection(set(_x[1]))) for _x in _E]", "_W = [len(set(_x[0]) & set(_x[1])) for _x in _E]"):
-                    sepw = sepw or tm.has(j.node, wt, {"_W": bl["_W"], "_E": bl["_E"]}, nested=False)
-                nE, bE = tm.find(j.node, "_E = list(itertools.combinations(_C, 2))", {"_E": bl["_E"]})
-                pairs = bE is not None and tm.has(j.node, "_C = list(map(tuple, nx.find_cliques(_T)))", {"_C": bE["_C"]})
+                for wt in ("list(map(lambda _x: len(set(_x[0]).intersection(set(_x[1]))), __E))", "list(map(lambda _x: len(set(_x[0]) & set(_x[1])), __E))",
+                           "[len(set(_x[0]).intersection(set(_x[1]))) for _x in __E]", "[len(set(_x[0]) & set(_x[1])) for _x in __E]"):
+                    sepw = sepw or tm.is_(bl["__W"], wt, {"__E": bl["__E"]}) is not None
+                bE = tm.is_(bl["__E"], "list(itertools.combinations(__C, 2))")
+                pairs = bE is not None and tm.is_(bE["__C"], "list(map(tuple, nx.find_cliques(__T)))") is not None
         parity = (1 if call_name(c) == "maximum_spanning_tree" else -1) * (-1 if neg else 1)
         rc.ob(f"clique graph: sepset-size weights {sepw} (negated: {neg}); {call_name(c)} -> parity {parity:+d}; all clique pairs {pairs}")
         if neg is None:
